@@ -26,7 +26,7 @@ EXPLANATION = (
     "frame on data."
 )
 LEVEL_RULE = "one obligation per pipeline row / subsample branch / return"
-FLOORS = {"R1": 14, "R2": 5, "R3": 10, "R4": 2, "R5": 4}
+FLOORS = {"R1": 14, "R2": 5, "R3": 10, "R4": 2, "R5": 4, "R6": 4}
 
 OPTS = ["head", "tail", "sample", "random_state"]
 
@@ -177,6 +177,19 @@ def r3_subsample(ctx):
         for opt, meth in (("head", "head"), ("tail", "tail"), ("sample", "sample")):
             calls = [c for c in calls_in(f.node) if isinstance(c.func, ast.Attribute) and c.func.attr == meth and txt(c.func.value) == obj]
             if not calls:
+                # positional slicing is an equivalent spelling of head(n) - `x.iloc[:n]` - but not of tail(n): `x.iloc[-0:]` is all of x
+                sl = [n for n in ast.walk(f.node) if isinstance(n, ast.Subscript) and isinstance(n.value, ast.Attribute) and n.value.attr == "iloc"
+                      and txt(n.value.value) == obj and isinstance(n.slice, ast.Slice)]
+                head_sl = [n for n in sl if n.slice.lower is None and n.slice.upper is not None and txt(n.slice.upper) == opt]
+                tail_sl = [n for n in sl if n.slice.upper is None and isinstance(n.slice.lower, ast.UnaryOp) and isinstance(n.slice.lower.op, ast.USub)
+                           and txt(n.slice.lower.operand) == opt]
+                if opt == "head" and head_sl:
+                    ctx.ob("R3", f, f"{f.short}: {opt} rows are taken from the full object", True, f"`{txt(head_sl[0])}` (same rows as head({opt}))")
+                    continue
+                if opt == "tail" and tail_sl:
+                    ctx.ob("R3", f, f"{f.short}: {opt} rows are taken from the full object", False,
+                           f"`{txt(tail_sl[0])}` is not tail({opt}): for {opt} == 0 the slice `[-0:]` is the whole object, so validate(tail=0) checks every row", f.loc(tail_sl[0]))
+                    continue
                 ctx.ob("R3", f, f"{f.short}: {opt} rows are taken from the full object", False, f"no {obj}.{meth}(...) call: the option has no effect")
                 continue
             c = calls[0]
@@ -301,10 +314,52 @@ def r5_each_row_once_in_order(ctx):
                    "object; labels that are not mutually comparable raise TypeError instead of a verdict", f.loc(reord[0]) if reord else None)
 
 
+def r6_same_seed_for_every_draw(ctx):
+    """A backend that subsamples the object more than once (the array backend: once for the schema-scope checks, once for
+    the user checks) has to draw the same rows each time: every `subsample(...)` call receives the caller's `random_state`
+    value itself.  Wrapping it once into a stateful generator (`np.random.RandomState(seed)`) that the calls share makes
+    the second draw a different set of rows - the verdict no longer equals the verdict on D.sample(n, random_state=r)."""
+    ix = ctx.ix
+    n = 0
+    for bc in schema_backend_classes(ix):
+        if "pyspark" in bc.module.path:
+            continue
+        for lst in bc.methods.values():
+            for f in lst:
+                calls = [c for c in calls_in(f.node) if callee_last(c) == "subsample" and isinstance(c.func, ast.Attribute)]
+                if not calls:
+                    continue
+                # anything that re-binds the seed on its way to the calls: `random_state = ...`, `kwargs["random_state"] = ...`
+                rebound = []
+                for st in walk_no_nested(f.node):
+                    tg = st.targets if isinstance(st, ast.Assign) else ([st.target] if isinstance(st, (ast.AugAssign, ast.AnnAssign)) else [])
+                    for t in tg:
+                        if (isinstance(t, ast.Name) and t.id == "random_state") or (
+                                isinstance(t, ast.Subscript) and isinstance(t.slice, ast.Constant) and t.slice.value == "random_state"):
+                            rebound.append(st)
+                    if isinstance(st, ast.Expr) and isinstance(st.value, ast.Call) and callee_last(st.value) in ("update", "setdefault") \
+                            and "random_state" in txt(st.value):
+                        rebound.append(st)
+                for c in calls:
+                    n += 1
+                    v = kw(c, "random_state") or (c.args[4] if len(c.args) > 4 else None)
+                    splat = [k.value for k in c.keywords if k.arg is None]
+                    passes = (isinstance(v, ast.Name) and v.id == "random_state") or (v is None and bool(splat))
+                    ok = passes and not rebound
+                    ctx.ob("R6", f, f"{f.short}: `{txt(c)[:40]}` draws with the caller's random_state", ok,
+                           "the caller's value is passed through" if ok else
+                           (f"random_state is re-bound (`{txt(rebound[0])[:70]}`) before it reaches the subsample calls: a stateful generator shared by several draws "
+                            "gives each of them different rows, so the user checks see other rows than the schema-scope checks and than D.sample(n, random_state=r)"
+                            if rebound else f"random_state={txt(v) if v is not None else None} is not the caller's value"), f.loc(c))
+    if n < 4:
+        raise AnalysisError(f"subsample call sites found: {n}")
+
+
 def run(ctx):
     r1_stages(ctx)
     r2_return(ctx)
     r3_subsample(ctx)
     r4_dedup(ctx)
     r5_each_row_once_in_order(ctx)
+    r6_same_seed_for_every_draw(ctx)
     ctx.assume("head()/tail()/sample() of pandas and polars select rows by position")
